@@ -358,6 +358,7 @@ func checkC14(w *World, r *Report) {
 	checkParseAlwaysParses(w, r, "R14.8")
 	checkParseTreesNotMemoised(w, r)
 	checkTreesAreParsed(w, r)
+	checkSizesNotNarrowed(w, r)
 }
 
 // checkNoAliasedHeaders (R14.3 / R01.7): no string or slice header is manufactured over memory
@@ -969,4 +970,151 @@ func checkParseTreesNotMemoised(w *World, r *Report) {
 		})
 	}
 	r.floor("calls of Parser.Parse", n, 2)
+}
+
+// checkSizesNotNarrowed (R14.11): a length, a position or an index into the token or node
+// sequences is never converted to an integer type narrower than 32 bits.  A table of token
+// positions kept as uint16 reads a template the same way only while it has fewer than 65 536
+// tokens; above that the position wraps and a tag far into a long template is handled as if it
+// stood somewhere else.  Conversions of single bytes and of values masked or reduced below the
+// target's range first are not sizes.
+func checkSizesNotNarrowed(w *World, r *Report) {
+	n := 0
+	for _, fn := range w.pkgFuncs() {
+		instrsOf(fn, func(in ssa.Instruction) {
+			cv, ok := in.(*ssa.Convert)
+			if !ok {
+				return
+			}
+			to, ok := cv.Type().Underlying().(*types.Basic)
+			if !ok || to.Info()&types.IsInteger == 0 {
+				return
+			}
+			from, ok := cv.X.Type().Underlying().(*types.Basic)
+			if !ok || from.Info()&types.IsInteger == 0 {
+				return
+			}
+			bits := func(b *types.Basic) int {
+				switch b.Kind() {
+				case types.Int8, types.Uint8:
+					return 8
+				case types.Int16, types.Uint16:
+					return 16
+				case types.Int32, types.Uint32:
+					return 32
+				}
+				return 64
+			}
+			if bits(to) >= 32 || bits(from) <= bits(to) {
+				return
+			}
+			what, isSize := sizeValue(cv.X, 0)
+			if !isSize {
+				what, isSize = positionValue(cv.X, 0)
+			}
+			if !isSize {
+				return
+			}
+			n++
+			construct := fmt.Sprintf("%s converted to %s", what, to.Name())
+			if reducedBelow(cv.X, bits(to)) {
+				r.ok("R14.11", ssaName(fn), construct, w.posOf(cv.Pos()), "the value is masked or reduced below the target's range before the conversion", true)
+				return
+			}
+			r.bad("R14.11", ssaName(fn), construct, w.posOf(cv.Pos()), fmt.Sprintf("a length or position is kept in %d bits: it wraps once the template is long enough, and a tag behind that point is read as if it stood elsewhere", bits(to)))
+		})
+	}
+	r.Counts["narrowing conversions of sizes or positions"] = n
+}
+
+// positionValue: an integer that names a place in the source, the token buffer or a node list —
+// a loop counter compared with a length, or a field/parameter called pos, position, offset, index, line, …
+func positionValue(v ssa.Value, depth int) (string, bool) {
+	if depth > 4 {
+		return "", false
+	}
+	named := func(s string) bool {
+		s = strings.ToLower(s)
+		for _, k := range []string{"pos", "offset", "index", "idx", "line", "start", "end", "count", "cursor"} {
+			if strings.Contains(s, k) {
+				return true
+			}
+		}
+		return false
+	}
+	switch x := v.(type) {
+	case *ssa.Parameter:
+		if named(x.Name()) {
+			return x.Name(), true
+		}
+	case *ssa.UnOp:
+		if x.Op == token.MUL {
+			if fa, ok := x.X.(*ssa.FieldAddr); ok {
+				tn, f := fieldOfAddr(fa)
+				if named(f) {
+					return tn + "." + f, true
+				}
+			}
+		}
+	case *ssa.Phi:
+		// loop counter: one edge is the phi plus a constant, and the phi is compared with a length
+		for _, e := range x.Edges {
+			if bo, ok := e.(*ssa.BinOp); ok && bo.Op == token.ADD && bo.X == x {
+				if x.Referrers() != nil {
+					for _, ref := range *x.Referrers() {
+						if cmp, ok := ref.(*ssa.BinOp); ok {
+							other := cmp.Y
+							if other == ssa.Value(x) {
+								other = cmp.X
+							}
+							if s, ok := sizeValue(other, 0); ok {
+								return "counter below " + s, true
+							}
+						}
+					}
+				}
+			}
+		}
+		for _, e := range x.Edges {
+			if s, ok := positionValue(e, depth+1); ok {
+				return s, true
+			}
+		}
+	case *ssa.BinOp:
+		switch x.Op {
+		case token.ADD, token.SUB:
+			if s, ok := positionValue(x.X, depth+1); ok {
+				return s + " " + x.Op.String() + " …", true
+			}
+			if s, ok := positionValue(x.Y, depth+1); ok {
+				return "… " + x.Op.String() + " " + s, true
+			}
+		}
+	case *ssa.Convert:
+		return positionValue(x.X, depth+1)
+	}
+	return "", false
+}
+
+// reducedBelow: v is x & c, x % c or x >> k with a result that fits in the given number of bits
+func reducedBelow(v ssa.Value, bits int) bool {
+	bo, ok := v.(*ssa.BinOp)
+	if !ok {
+		return false
+	}
+	c, ok := bo.Y.(*ssa.Const)
+	if !ok || c.Value == nil || c.Value.Kind() != constant.Int {
+		return false
+	}
+	k, _ := constant.Int64Val(c.Value)
+	limit := int64(1) << uint(bits)
+	switch bo.Op {
+	case token.AND:
+		return k >= 0 && k < limit
+	case token.REM:
+		return k > 0 && k <= limit
+	case token.SHR:
+		return k >= int64(64-bits)
+	}
+	return false
 }
